@@ -470,7 +470,8 @@ fn chk_history(g: &mut Gen) -> Result<(), String> {
             3 | 4 => {
                 let op = g.below(4) as u8; let eid = 1 + g.u8() % 0xFE; let good = g.below(4) > 0;
                 if op == 2 { continue; }
-                let mut p = packet_bytes(addr, g.u8(), 0, &[0x80, 0x01, op, eid]);
+                let src = g.u8();
+                let mut p = packet_bytes(addr, src, 0, &[0x80, 0x01, op, eid]);
                 if !good { let l = p.len(); p[l - 1] ^= 0x5A; }
                 let mut rb = [0u8; 64];
                 let r = quiet(|| c.process_packet(&p, &mut rb).map(|x| x.1)).map_err(|m| format!("process_packet({}) panicked: {}", hex(&p), m))?;
@@ -478,6 +479,10 @@ fn chk_history(g: &mut Gen) -> Result<(), String> {
                 trace.push(format!("process({})", hex(&p)));
                 if good {
                     match r { Ok(Some(16)) => {}, o => return Err(format!("history {:?}: Set Endpoint ID not answered: {:?}", trace, o.map_err(|e| err_class(&e)))) }
+                    // C12: the answer travels back to the requester, from the responder's own address, and is well-formed
+                    if rb[..16] != packet_bytes(src, addr, 0, &rb[9..15])[..] || rb[9] & 0xE0 != 0 || rb[10] != 0x01 {
+                        return Err(format!("history {:?}: Set Endpoint ID (operation {}) answered with {} which is not a well-formed response back to requester {:#x}", trace, op, hex(&rb[..16]), src));
+                    }
                     if (op == 0 || op == 1) && rb[11..15] != [0, 0, eid, 0] { return Err(format!("history {:?}: assignment answered with {}", trace, hex(&rb[..16]))); }
                     if op == 3 && (rb[11] != 2 || rb[13] != model_eid_s) { return Err(format!("history {:?}: Set Discovered Flag answered with {}", trace, hex(&rb[..16]))); }
                 }
